@@ -91,7 +91,13 @@ impl Report {
 pub fn run_with_watchdog(out: &str, stall_s: u64, work: impl FnOnce() -> Report + Send + 'static) {
     let out_path = out.to_string();
     let (tx, rx) = std::sync::mpsc::channel();
-    std::thread::Builder::new().stack_size(256 << 20).spawn(move || { match guarded(work) { Ok(r) => { let _ = tx.send(r); } Err(m) => { eprintln!("harness bug: uncaught panic in worker: {}", m); } } }).unwrap();
+    std::thread::Builder::new().stack_size(256 << 20).spawn(move || { match guarded(work) { Ok(r) => { let _ = tx.send(r); } Err(m) => {
+            // drivers only perform valid operations: a panic that escapes is a panic of the code under test
+            let mut r = Report::default();
+            let ctx = THREAD_CASE.with(|c| c.borrow().1.clone());
+            let case: Value = serde_json::from_str(&ctx).unwrap_or(json!({"k": "driver", "args": std::env::args().collect::<Vec<_>>()}));
+            r.mismatch(&json!({"k": "driver_panic", "args": std::env::args().collect::<Vec<_>>(), "context": case}), format!("panic in a library call made by the driver: {}", m));
+            let _ = tx.send(r); } } }).unwrap();
     let mut last = HEARTBEAT.load(Ordering::Relaxed);
     let mut idle = 0u64;
     loop {
